@@ -76,6 +76,35 @@ let line_of (l : string) : string =
        | M.Err (M.EUnknownLicense (w, o)) -> Printf.sprintf "Q unk %d %s" (int_of_nat o) (hex (string_of_str w))
        | M.Err (M.EExpectedId o) -> Printf.sprintf "Q eid %d" (int_of_nat o)
        | M.Err _ -> "Q other" | M.Panic -> "Q PANIC" | M.Fuel -> "Q FUEL")
+  | ["T"; e] ->  (* scan(): role letter + value per token *)
+      let op_text = function M.OWith -> "WITH" | M.OAnd -> "AND" | M.OOr -> "OR" | M.OLp -> "(" | M.ORp -> ")" | M.OColon -> ":" | M.OPlus -> "+" in
+      (match M.scan t0 (str_of_string (unhex e)) with
+       | M.Ok [] -> "T -"
+       | M.Ok ts ->
+           "T " ^ String.concat "," (List.map (function
+             | M.TOp o -> "o" ^ hex (op_text o) | M.TDoc x -> "d" ^ hex (string_of_str x) | M.TRef x -> "r" ^ hex (string_of_str x)
+             | M.TLic x -> "l" ^ hex (string_of_str x) | M.TExc x -> "e" ^ hex (string_of_str x)) ts)
+       | M.Err _ -> "T E" | M.Panic -> "T PANIC" | M.Fuel -> "T FUEL")
+  | ["P"; e] ->  (* parse(): the tree in node.string() notation *)
+      let rec show = function
+        | M.NAnd (a, b) -> "{ LEFT: " ^ show a ^ " and RIGHT: " ^ show b ^ " }"
+        | M.NOr (a, b) -> "{ LEFT: " ^ show a ^ " or RIGHT: " ^ show b ^ " }"
+        | M.NLic (l, p, x) -> string_of_str l ^ (if p then "+" else "") ^ (match x with Some y -> " with " ^ string_of_str y | None -> "")
+        | M.NRef (d, r) -> (match d with Some y -> "DocumentRef-" ^ string_of_str y ^ ":" | None -> "") ^ "LicenseRef-" ^ string_of_str r in
+      (match M.parse t0 (str_of_string (unhex e)) with
+       | M.Ok t -> "P " ^ hex (show t)
+       | M.Err _ -> "P E" | M.Panic -> "P PANIC" | M.Fuel -> "P FUEL")
+  | ["N"; i] ->  (* getLicenseRange() *)
+      (match M.license_range t0 (str_of_string (unhex i)) with
+       | Some (g, v) -> Printf.sprintf "N %d %d" (int_of_nat g) (int_of_nat v)
+       | None -> "N none")
+  | ["K"; a] ->  (* stringsToNodes + sortAndDedup as Satisfies uses them *)
+      (match M.strings_to_nodes t0 (List.map str_of_string (unlist a)) with
+       | M.Ok ns ->
+           (match M.sort_and_dedup ns with
+            | M.Ok ns' -> "K " ^ hexlist (List.map (fun n -> match M.canon n with Some s -> string_of_str s | None -> "?") ns')
+            | M.Err _ -> "K E" | M.Panic -> "K PANIC" | M.Fuel -> "K FUEL")
+       | M.Err _ -> "K E" | M.Panic -> "K PANIC" | M.Fuel -> "K FUEL")
   | ["G"; k; ps] ->
       let j = pairs ps in
       let f = (match k with "L" -> M.gen_licenses_file M.tpl_licenses j | "D" -> M.gen_deprecated_file M.tpl_deprecated j
